@@ -530,9 +530,16 @@ let json_fmt : fmt = {
 }
 
 (* values described by "## REF" tokens (joined with '_') *)
-let ref_values (r : string) : [ `Values of cvalue list | `Err | `Range | `Skip ] =
+let ref_values (r : string) : [ `Values of cvalue list | `Err | `Range | `Skip | `Wide of cvalue list ] =
   if r = "ERR" then `Err
   else if r = "RANGE" then `Range
+  else if starts_with r "WIDE_" then begin
+    (* some integer literal is outside the 64-bit range: rejected, or reported as this float *)
+    let evs = events_of_toks (String.split_on_char '_' (after r 5)) in
+    match take_trees evs 64 with
+    | Some trees -> `Wide (List.map (fun t -> cv (value_of t)) trees)
+    | None -> `Skip
+  end
   else if r = "BADUTF8" || r = "ADJ" then `Skip
   else if r = "EMPTY" then `Values []
   else
@@ -669,6 +676,15 @@ let ext_ref_oracle (f : fmt) (r : string) (evs : event list) (verdict : string) 
              if not (List.length got = List.length want && List.for_all2 cvalue_eqb want got) then
                o := (f.cprop, "reported value differs from the reference decoder's value") :: !o;
              if not (List.for_all wf_tree ts) then o := ("C09", "accepted input produced an ill-formed event stream") :: !o
+         | None -> o := ("C09", "accepted input produced an unbalanced event stream") :: !o
+       end
+   | `Wide want ->
+       if verdict = "ok" then begin
+         match trees with
+         | Some ts ->
+             let got = List.map (fun t -> cv (value_of t)) ts in
+             if not (List.length got = List.length want && List.for_all2 cvalue_eqb want got) then
+               o := (f.cprop, "an integer literal outside the 64-bit range was reported as a different number") :: !o
          | None -> o := ("C09", "accepted input produced an unbalanced event stream") :: !o
        end
    | `Err | `Range | `Skip ->
@@ -1183,8 +1199,11 @@ let fold_case (input : string) (obs0 : string) : verdict =
             end;
             if iv = "PANIC" || iv = "HANG" then oracle := ("C11", "Fold crashed: " ^ iv) :: !oracle;
             (* correspondence modulo map iteration order *)
-            if multi && iv = verdict &&
-               (if verdict = "ok" then sorted_toks ievs = sorted_toks delivered else true) then obs else model
+            (* with several map entries the iteration order decides which events precede an error
+               or an injected failure: only complete runs are compared, as multisets *)
+            if multi && iv <> "PANIC" && iv <> "HANG" &&
+               (if verdict = "ok" && iv = "ok" then sorted_toks ievs = sorted_toks delivered
+                else verdict <> "ok" || iv <> "ok" && failat >= 0) then obs else model
         | None -> oracle := ("C11", "Fold crashed: " ^ obs) :: !oracle; model in
       { model; oracle = !oracle }
   | _ -> failwith "fold: bad input"
